@@ -4,6 +4,7 @@ from dataclasses import dataclass
 from itertools import count
 from types import CodeType
 
+from . import _verif
 from .mro import sort_types
 from .recode import generate_dependent_dispatch
 from .utils import MISSING, subtler_type
@@ -43,9 +44,11 @@ class TypeMap(dict):
         groups = list(sort_types(obj_t, self.types))
 
         for lvl, grp in enumerate(reversed(groups)):
+            grp = _verif.order("typemap.group", grp)
             for cls in grp:
                 handlers = self.entries.get(cls, None)
                 if handlers:
+                    handlers = _verif.order("typemap.handlers", handlers)
                     results.update({h: lvl for h in handlers})
 
         if results:
@@ -152,6 +155,7 @@ class MultiTypeMap(dict):
             for c in candidates:
                 specificities.setdefault(c, []).append(results[c])
 
+        candidates = _verif.order("mro.candidates", candidates)
         candidates = [
             Candidate(
                 handler=c,
